@@ -262,7 +262,7 @@ def _later_reactant_extreme(steps):
     return any(st['r'] > max(rest) or st['r'] < min(rest) for st in steps[1:])
 
 
-def record_span(rxns, api, units, kw, holder='Reactions'):
+def record_span(rxns, api, units, kw, holder='Reactions', net=None):
     from pmutt.reaction import Reactions
     from pmutt.reaction.network import Network, state_to_set
     steps = _step_energies(rxns, units, kw)
@@ -283,7 +283,7 @@ def record_span(rxns, api, units, kw, holder='Reactions'):
         if not ev['contig']:
             raise core.MachineryError('driver asked for a network path of a non-contiguous sequence')
         G = [g for k, st in enumerate(steps) for g in ([st['r']] if k == 0 else []) + st['t'] + [st['p']]]
-        net = Network(reactions=list(rxns))
+        net = net if net is not None else Network(reactions=list(rxns))
         path = []
         for s, rxn in enumerate(rxns):
             if s == 0:
@@ -838,14 +838,40 @@ def _exec_rspan(case):
     ev['cls'] = cls + ['span.units:%s' % (units or 'eV')]
     events.append(ev)
     if _is_contiguous(rxns):
-        ev, _ = record_span(rxns, 'network', units, kw)
+        from pmutt.reaction.network import Network
+        net = Network(reactions=list(rxns))          # ONE object, queried again and again
+        ev, _ = record_span(rxns, 'network', units, kw, net=net)
         ev['cls'] = ['net.units:%s' % units]
         events.append(ev)
         simple_names = all(len(r.reactants) == 1 and len(r.products) == 1 for r in rxns)
-        if case.get('min_span') and simple_names:
-            ev, _ = record_span(rxns, 'network_min', units, kw)
+        do_min = case.get('min_span') and simple_names
+        if do_min:
+            ev, _ = record_span(rxns, 'network_min', units, kw, net=net)
             ev['cls'] = ['net.min_single_path', 'netmin.units:%s' % units]
             events.append(ev)
+        # the same Network under other conditions, and back: every answer is judged against
+        # the sequence's own state energies under THOSE conditions
+        pkey = (gname + '_kwargs') if (gas is not None and case.get('gas_kw') == 'kwargs') else 'P'
+        kwP = dict(kw)
+        if pkey == 'P':
+            kwP['P'] = kw.get('P', 1.0) * rnd.choice([1e-3, 1e-2, 50.0, 400.0])
+        else:
+            kwP[pkey] = {'P': kw[pkey]['P'] * rnd.choice([1e-3, 1e-2, 50.0, 400.0])}
+        kwT = dict(kw)
+        kwT['T'] = kw['T'] + rnd.choice([-120.0, 90.0, 333.0])
+        other_units = rnd.choice([u for u in [None, 'eV', 'kJ/mol', 'kcal/mol', 'Ha'] if u != units])
+        for tag, u2, kw2 in ((('net.requery:P' if pkey == 'P' else 'net.requery:kwargs') if gas_used
+                              else 'net.requery:P_without_gas', units, kwP),
+                             ('net.requery:T', units, kwT),
+                             ('net.requery:units', other_units, kw),
+                             ('net.requery:back', units, kw)):
+            ev, _ = record_span(rxns, 'network', u2, kw2, net=net)
+            ev['cls'] = [tag]
+            events.append(ev)
+            if do_min and tag != 'net.requery:units':
+                ev, _ = record_span(rxns, 'network_min', u2, kw2, net=net)
+                ev['cls'] = ['netmin.requery']
+                events.append(ev)
     return events, []
 
 
@@ -998,6 +1024,9 @@ def _expected_classes():
     exp += ['span.rcls:' + c for c in RXN_CLASSES]
     exp += ['span.holder:Reactions', 'span.holder:PhaseDiagram', 'span.reversed', 'span.gas:P',
             'span.gas:kwargs']
+    # the same Network queried again under other conditions
+    exp += ['net.requery:P', 'net.requery:kwargs', 'net.requery:T', 'net.requery:units', 'net.requery:back',
+            'netmin.requery']
     return exp
 
 
